@@ -458,13 +458,39 @@ pub fn abstract_ne(first: &Value, second: &Value) -> bool {
 }
 
 /// Provide abstract <= comparisons
+///
+/// As in JavaScript, `<=` compares the converted operands. It is not
+/// "`<` or `==`": `null <= 0`, `[1] <= [1]` and `{} <= {}` are true although
+/// neither `<` nor `==` holds for them.
 pub fn abstract_lte(first: &Value, second: &Value) -> bool {
-    abstract_lt(first, second) || abstract_eq(first, second)
+    match (
+        to_primitive(first, PrimitiveHint::Number),
+        to_primitive(second, PrimitiveHint::Number),
+    ) {
+        (Primitive::String(f), Primitive::String(s)) => f <= s,
+        (Primitive::Number(f), Primitive::Number(s)) => f <= s,
+        (Primitive::String(f), Primitive::Number(s)) => {
+            if let Some(f) = str_to_number(f) {
+                f <= s
+            } else {
+                false
+            }
+        }
+        (Primitive::Number(f), Primitive::String(s)) => {
+            if let Some(s) = str_to_number(s) {
+                f <= s
+            } else {
+                false
+            }
+        }
+    }
 }
 
 /// Provide abstract >= comparisons
+///
+/// `a >= b` is `b <= a`.
 pub fn abstract_gte(first: &Value, second: &Value) -> bool {
-    abstract_gt(first, second) || abstract_eq(first, second)
+    abstract_lte(second, first)
 }
 
 /// Get the max of an array of values, performing abstract type conversion
